@@ -254,6 +254,9 @@ def do_action(obj, root, a, emb, beh=None, env=None):
         if isinstance(res, Payload):
             return {"res": proj.proj_payload(res, None, env.get("oids") if env else None)}
         return {"res": {"k": "X", "t": "returned-" + type(res).__name__}}
+    if op == "setroot":
+        obj.setRoot(proj.build_fiber({"k": "F", "e": a["other"]}))
+        return None
     if op in ("dlookup", "dinsert"):
         import warnings
         f = fiber_at(root, a["path"])
@@ -364,4 +367,14 @@ def execute(beh):
         else:
             ev.update({"res": {"k": "N"}, "resid": 0} if a["op"] in ("get", "ref") else {})
         out["steps"].append(ev)
+    out["rankfp"] = []
+    if emb == "tensor" and beh["steps"]:
+        # a per-rank quantity derived from the rank lists: the footprint of each rank when every fiber costs one bit and nothing else costs anything
+        try:
+            from fibertree.model.format import Format
+            ids = list(obj.getRankIds())
+            fm = Format(obj, {r: {"fhbits": 1} for r in ids})
+            out["rankfp"] = [int(fm.getRank(r)) for r in ids]
+        except BaseException:  # noqa: B036
+            out["rankfp"] = []
     return out
